@@ -7,5 +7,7 @@ CONSTANTS
   RelLens = TRUE
   MaxWrites = 4
   WriterFollowsOwnSCS = TRUE
+  HsOrder = "serial"
+  HsReadExact = TRUE
 INVARIANTS NoDesync Emit
 CHECK_DEADLOCK FALSE
